@@ -185,9 +185,17 @@ def run_case(ctx, c, rng):
     elif c['policy'] == 'custom5':
         keep = [[i, n, bool(keep_table.get((i, n), ''))] for i in range(len(incoming)) for n in checked]
     op = {'op': 'validate', 'res': 'data', 'fields': checked, 'policy': pol,
-          'rows': [canon.enc_row(r) for r in incoming],
+          # with a transform the model gets the raw rows and the transform as a table (it applies it itself)
+          'rows': [canon.enc_row(r) for r in (c['rows'] if c['transform'] else incoming)],
           'cast': [[n, canon.enc_val(v), (canon.enc_val(o) if okc else None)] for (n, _), (v, okc, o) in cast.items()],
           'keep': keep}
+    if c['transform']:
+        pre = {}
+        for r in c['rows']:
+            for n in checked:
+                v = r.get(n)
+                pre[(n, canon.canon_json(canon.enc_val(v)))] = [n, canon.enc_val(v), canon.enc_val(tr_spec(v, n))]
+        op['pre'] = list(pre.values())
     return case, op, real_c
 
 
